@@ -334,8 +334,21 @@ def c05_stored(R):
         )
     # derived metadata
     want = {"symbolic": "a.symbolic for a in b_args", "variables": "a.variables for a in b_args", "arg_max_depth": "a.depth for a in b_args"}
+    def _derives(d, nm, frag):
+        """The derivation ranges over *all* of b_args with the aggregator the field needs."""
+        gens = [g for g in ast.walk(d.value) if isinstance(g, (ast.GeneratorExp, ast.ListComp))]
+        if not any(
+            len(g.generators) == 1 and ast.unparse(g.generators[0].iter) == "b_args" and not g.generators[0].ifs and frag.split(" for ")[0] == ast.unparse(g.elt)
+            for g in gens
+        ):
+            return False
+        agg = {"symbolic": "any", "arg_max_depth": "max"}.get(nm)
+        if agg is not None:
+            return isinstance(d.value, ast.Call) and dotted(d.value.func) == agg
+        return True
+
     for nm, frag in want.items():
-        ds = [d for d in defs.get(nm, []) if frag in ast.unparse(d.value)]
+        ds = [d for d in defs.get(nm, []) if frag in ast.unparse(d.value) and _derives(d, nm, frag)]
         R.check(
             len(ds) == 1,
             m,
@@ -630,6 +643,45 @@ def c05_raw(R):
             elif d == "Bool":
                 R.check(ln is None, mm, c, f"{q}: Bool node has no length", f"{q} gives a Bool node a length")
     R.extra["raw_constructions"] = n
+    # a node rebuilt with the op of an existing node Y keeps Y's width:  Y.__class__(Y.op, args, length=<width of Y>)
+    k = 0
+    for mm, q, fn in tree.all_functions():
+        if mm.path not in RAW_FILES_OK:
+            continue
+        al = None
+        for c in (x for x in walk_no_nested(fn) if isinstance(x, ast.Call)):
+            if not (c.args and isinstance(c.args[0], ast.Attribute) and c.args[0].attr == "op" and isinstance(c.args[0].value, ast.Name)):
+                continue
+            y = c.args[0].value.id
+            ftxt = ast.unparse(c.func)
+            if ftxt not in (f"{y}.__class__", f"type({y})", "BV"):
+                continue
+            ln = util.kw(c, "length")
+            if ln is None:
+                continue
+            k += 1
+            lt = ast.unparse(ln)
+            ok = lt in (f"{y}.length", f"len({y})", f"{y}.size()")
+            if not ok:
+                # Y is a branch of an If node E and the length is E's (an If has the width of its branches)
+                if al is None:
+                    al = opfacts.Aliases(fn)
+                ytxt = al.text(c.args[0].value)
+                for e in (x for x in ast.walk(ln) if isinstance(x, ast.Attribute) and x.attr == "length" and isinstance(x.value, ast.Name)):
+                    etxt = al.text(e.value)
+                    if ytxt in (f"{etxt}.args[1]", f"{etxt}.args[2]") and lt == f"{e.value.id}.length":
+                        env = opfacts.FactEnv(fn)
+                        ops = env.ops_at(c, e.value)
+                        ok = ops == frozenset({"If"})
+            R.check(
+                ok,
+                mm,
+                c,
+                f"{q}: node rebuilt with {y}'s op keeps {y}'s width",
+                f"{q} rebuilds a node with `{y}.op` but length=`{lt}`, which is not the width of `{y}`: for width-changing "
+                f"ops (extensions, Concat, comparisons) the new node reports the wrong width",
+            )
+    R.extra["op_copying_constructions"] = k
 
 
 # ----------------------------------------------------------------------------- C06
@@ -637,7 +689,7 @@ def c05_raw(R):
 
 @rule(
     "C06.key",
-    props=("C06", "C18"),
+    props=("C06", "C18", "C05"),
     floor=8,
     family="SIB",
     desc="the identity fields agree wherever the HASHCONS comments demand it: _calc_hash/_ast_serialize consume "
@@ -720,6 +772,20 @@ def c06_key(R):
         )
     hk = util.kw(c, "hash")
     R.check(hk is not None and ast.unparse(hk) == "h", m, c, "_d passes the pickled hash", "_d does not pass hash=h")
+    extra_kw = sorted(k.arg or "**" for k in c.keywords if k.arg not in set(names) | {"hash"})
+    R.check(
+        not extra_kw,
+        m,
+        c,
+        "_d rebuilds through the ordinary constructor path (no construction switches)",
+        f"_d passes {extra_kw} to the constructor: an unpickled node is built differently from the original "
+        f"(e.g. without inheriting its children's annotation sets), so it behaves differently under later rewriting",
+    )
+    # every field of the pickled state is forwarded (none is dropped on the floor)
+    for f in names:
+        used = any(isinstance(x, ast.Name) and x.id == f for a in list(c.args) + [k.value for k in c.keywords] for x in ast.walk(a))
+        R.check(used, m, c, f"_d forwards the pickled {f}", f"_d unpacks `{f}` from the pickled state but never passes it on: the "
+                f"rebuilt node recomputes or loses it")
 
 
 @rule(
